@@ -285,9 +285,9 @@ Proof.
 Qed.
 
 (** * Builder invariants *)
-Definition add_zone' (ix : tindex) (zv : N * list Z) : tindex := add_zone ix (fst zv) (snd zv).
+Definition add_zone' (mode : N) (ix : tindex) (zv : N * list Z) : tindex := add_zone mode ix (fst zv) (snd zv).
 
-Lemma build_fold : forall zones, build zones = fold_left add_zone' zones tindex_empty.
+Lemma build_fold : forall mode zones, build mode zones = fold_left (add_zone' mode) zones tindex_empty.
 Proof. reflexivity. Qed.
 
 Lemma zti_lookup_app1 : forall zid l z x,
@@ -298,81 +298,89 @@ Proof.
   - rewrite IH. destruct (z =? zid)%N; reflexivity.
 Qed.
 
-Lemma add_zone_ztis : forall ix zid vals,
-  t_ztis (add_zone ix zid vals) =
+Lemma add_zone_ztis : forall mode ix zid vals,
+  t_ztis (add_zone mode ix zid vals) =
   match vals with [] => t_ztis ix | _ => t_ztis ix ++ [(zid, from_timestamps vals)] end.
 Proof.
-  intros ix zid vals. unfold add_zone. destruct vals as [|v r]; [reflexivity|].
-  match goal with |- context [if ?c then _ else _] => destruct c end; reflexivity.
+  intros mode ix zid vals. unfold add_zone. destruct vals as [|v r]; [reflexivity|].
+  destruct (cal_range mode (zmin_list (v :: r)) (zmax_list (v :: r))) as [[lo hi]|]; reflexivity.
 Qed.
 
-Lemma add_zone_cal_le : forall ix zid vals c,
-  t_cal ix = Some c -> exists c', t_cal (add_zone ix zid vals) = Some c' /\ cal_le c c'.
+Lemma add_zone_cal_le : forall mode ix zid vals c,
+  t_cal ix = Some c -> exists c', t_cal (add_zone mode ix zid vals) = Some c' /\ cal_le c c'.
 Proof.
-  intros ix zid vals c Hc. unfold add_zone. destruct vals as [|v r].
+  intros mode ix zid vals c Hc. unfold add_zone. destruct vals as [|v r].
   - exists c. split; [assumption|apply cal_le_refl].
-  - match goal with |- context [if ?cnd then _ else _] => destruct cnd end; cbn [t_cal].
+  - destruct (cal_range mode (zmin_list (v :: r)) (zmax_list (v :: r))) as [[lo hi]|]; cbn [t_cal].
     + rewrite Hc. eexists. split; [reflexivity|apply add_zone_range_le].
     + exists c. split; [assumption|apply cal_le_refl].
 Qed.
 
-Lemma add_zone_marks : forall ix zid vals,
-  vals <> [] -> (forall u, In u vals -> 0 <= u < 2 ^ 64) ->
-  exists c, t_cal (add_zone ix zid vals) = Some c /\
+(** the range a zone is registered with: [Z.to_N] clamps at 0, so both modes give
+    [to_N min .. to_N max] — mode 0 only for a zone without negative values *)
+Lemma cal_range_spec : forall mode mn mx,
+  (mode = 0%N -> 0 <= mn /\ 0 <= mx) ->
+  cal_range mode mn mx = Some (Z.to_N mn, Z.to_N mx).
+Proof.
+  intros mode mn mx H. unfold cal_range. destruct mode as [|p].
+  - destruct (H eq_refl) as [H1 H2].
+    destruct (Z.leb_spec 0 mn); [|lia]. destruct (Z.leb_spec 0 mx); [|lia]. reflexivity.
+  - f_equal. f_equal; lia.
+Qed.
+
+Lemma add_zone_marks : forall mode ix zid vals,
+  vals <> [] -> (mode = 0%N -> forall u, In u vals -> 0 <= u) ->
+  exists c, t_cal (add_zone mode ix zid vals) = Some c /\
     forall ts, (Z.to_N (zmin_list vals) <= ts)%N -> (ts <= Z.to_N (zmax_list vals))%N ->
       in_bucket (cal_hour c) (bucket_id GHour ts) zid /\ in_bucket (cal_day c) (bucket_id GDay ts) zid.
 Proof.
-  intros ix zid vals Hne Hb. unfold add_zone. destruct vals as [|v r] eqn:E; [congruence|]. rewrite <- E in *.
-  assert (Hmn : 0 <= zmin_list vals) by (apply zmin_list_ge; [assumption|intros x Hx; apply Hb; assumption]).
+  intros mode ix zid vals Hne Hb. unfold add_zone. destruct vals as [|v r] eqn:E; [congruence|]. rewrite <- E in *.
   assert (Hv : In v vals) by (rewrite E; now left).
-  assert (Hmx : 0 <= zmax_list vals) by (pose proof (zmax_list_ge vals v Hv); specialize (Hb v Hv); lia).
-  assert (Hmn2 : zmin_list vals < 2 ^ 64) by (pose proof (zmin_list_le vals v Hv); specialize (Hb v Hv); lia).
-  assert (Hmx2 : zmax_list vals < 2 ^ 64).
-  { assert (zmax_list vals <= 2 ^ 64 - 1); [|lia]. apply zmax_list_le; [assumption|].
-    intros x Hx. specialize (Hb x Hx). lia. }
-  destruct (Z.leb_spec 0 (zmin_list vals)); [|lia]. destruct (Z.leb_spec 0 (zmax_list vals)); [|lia].
-  rewrite orb_true_r. cbn [t_cal]. eexists. split; [reflexivity|].
-  rewrite !Z.mod_small by lia.
-  intros ts Hlo Hhi. split; [now apply add_zone_range_hour|now apply add_zone_range_day].
+  rewrite cal_range_spec.
+  - cbn [t_cal]. eexists. split; [reflexivity|].
+    intros ts Hlo Hhi. split; [now apply add_zone_range_hour|now apply add_zone_range_day].
+  - intros Hm. specialize (Hb Hm). split.
+    + apply zmin_list_ge; [assumption|exact Hb].
+    + pose proof (zmax_list_ge vals v Hv). specialize (Hb v Hv). lia.
 Qed.
 
-Lemma fold_keeps_lookup : forall rest ix zid,
+Lemma fold_keeps_lookup : forall mode rest ix zid,
   ~ In zid (map fst rest) ->
-  zti_lookup zid (t_ztis (fold_left add_zone' rest ix)) = zti_lookup zid (t_ztis ix).
+  zti_lookup zid (t_ztis (fold_left (add_zone' mode) rest ix)) = zti_lookup zid (t_ztis ix).
 Proof.
-  induction rest as [|[z vs] r IH]; intros ix zid Hnin; cbn [fold_left]; [reflexivity|].
+  intros mode. induction rest as [|[z vs] r IH]; intros ix zid Hnin; cbn [fold_left]; [reflexivity|].
   cbn [map fst In] in Hnin. rewrite IH by tauto. unfold add_zone'. cbn [fst snd].
   rewrite add_zone_ztis. destruct vs; [reflexivity|].
   rewrite zti_lookup_app1. destruct (N.eqb_spec z zid); [subst; tauto|reflexivity].
 Qed.
 
-Lemma fold_keeps_cal : forall rest ix c,
-  t_cal ix = Some c -> exists c', t_cal (fold_left add_zone' rest ix) = Some c' /\ cal_le c c'.
+Lemma fold_keeps_cal : forall mode rest ix c,
+  t_cal ix = Some c -> exists c', t_cal (fold_left (add_zone' mode) rest ix) = Some c' /\ cal_le c c'.
 Proof.
-  induction rest as [|[z vs] r IH]; intros ix c Hc; cbn [fold_left].
+  intros mode. induction rest as [|[z vs] r IH]; intros ix c Hc; cbn [fold_left].
   - exists c. split; [assumption|apply cal_le_refl].
-  - destruct (add_zone_cal_le ix z vs c Hc) as [c1 [H1 L1]].
-    destruct (IH (add_zone' ix (z, vs)) c1 H1) as [c2 [H2 L2]].
+  - destruct (add_zone_cal_le mode ix z vs c Hc) as [c1 [H1 L1]].
+    destruct (IH (add_zone' mode ix (z, vs)) c1 H1) as [c2 [H2 L2]].
     exists c2. split; [assumption|eapply cal_le_trans; eassumption].
 Qed.
 
-Lemma build_spec : forall zones ix zid vals,
+Lemma build_spec : forall mode zones ix zid vals,
   NoDup (map fst zones) -> In (zid, vals) zones -> vals <> [] ->
-  zti_lookup zid (t_ztis (fold_left add_zone' zones ix)) = Some (from_timestamps vals) /\
-  ((forall u, In u vals -> 0 <= u < 2 ^ 64) ->
-   exists c, t_cal (fold_left add_zone' zones ix) = Some c /\
+  zti_lookup zid (t_ztis (fold_left (add_zone' mode) zones ix)) = Some (from_timestamps vals) /\
+  ((mode = 0%N -> forall u, In u vals -> 0 <= u) ->
+   exists c, t_cal (fold_left (add_zone' mode) zones ix) = Some c /\
      forall ts, (Z.to_N (zmin_list vals) <= ts)%N -> (ts <= Z.to_N (zmax_list vals))%N ->
        in_bucket (cal_hour c) (bucket_id GHour ts) zid /\ in_bucket (cal_day c) (bucket_id GDay ts) zid).
 Proof.
-  induction zones as [|[z vs] r IH]; intros ix zid vals Hnd Hin Hne; [contradiction|].
+  intros mode. induction zones as [|[z vs] r IH]; intros ix zid vals Hnd Hin Hne; [contradiction|].
   cbn [map fst] in Hnd. inversion Hnd as [|? ? Hnin Hnd']; subst.
   cbn [fold_left]. destruct Hin as [[= -> ->]|Hin].
   - split.
     + rewrite fold_keeps_lookup by assumption. unfold add_zone'. cbn [fst snd].
       rewrite add_zone_ztis. destruct vals as [|v0 r0]; [congruence|].
       rewrite zti_lookup_app1. now rewrite N.eqb_refl.
-    + intros Hb. destruct (add_zone_marks ix zid vals Hne Hb) as [c1 [H1 M1]].
-      destruct (fold_keeps_cal r (add_zone' ix (zid, vals)) c1 H1) as [c2 [H2 [Lh Ld]]].
+    + intros Hb. destruct (add_zone_marks mode ix zid vals Hne Hb) as [c1 [H1 M1]].
+      destruct (fold_keeps_cal mode r (add_zone' mode ix (zid, vals)) c1 H1) as [c2 [H2 [Lh Ld]]].
       exists c2. split; [assumption|]. intros ts Hlo Hhi.
       destruct (M1 ts Hlo Hhi) as [Mh Md]. split; [now apply Lh|now apply Ld].
   - now apply IH.
@@ -381,27 +389,20 @@ Qed.
 (** * The probe literal *)
 Ltac Zify.zify_post_hook ::= Z.div_mod_to_equations.
 
-Lemma to_i64_id : forall z, - 2 ^ 63 <= z < 2 ^ 63 -> to_i64 z = z.
-Proof. intros z Hz. unfold to_i64. lia. Qed.
-
-Lemma clamp_spec : forall z, Z.of_N (clamp_u64 z) = Z.max z 0.
-Proof. intros z. unfold clamp_u64. change zidx_clamp_negative with true. cbn iota. lia. Qed.
-
-(** a literal that denotes the integer instant [v] is probed as [max v 0] *)
-Lemma lit_ts_i64_spec : forall l v,
-  lit_value l = Some (LVInt v) -> - 2 ^ 63 <= v < 2 ^ 63 -> lit_ts_i64 l = Z.max v 0.
+(** a literal that denotes the integer instant [v] is probed with exactly [v]
+    (db7c428: no clamping of the per-zone test any more) *)
+Lemma lit_ts_spec : forall l v, lit_value l = Some (LVInt v) -> lit_ts l = v.
 Proof.
-  intros l v Hl Hv. unfold lit_ts_i64. destruct l as [z|s|n d|]; cbn [lit_value lit_ts] in *.
-  - injection Hl as ->. rewrite clamp_spec. apply to_i64_id. lia.
-  - destruct (parse_str_to_epoch_seconds s) as [p|].
-    + injection Hl as ->. rewrite clamp_spec. apply to_i64_id. lia.
-    + destruct (parse_u64 s) as [u|]; [|discriminate].
-      injection Hl as <-. rewrite to_i64_id by lia. lia.
+  intros l v Hl. destruct l as [z|s|n d|]; cbn [lit_value lit_ts] in *.
+  - now injection Hl.
+  - destruct (parse_str_to_epoch_seconds s) as [p|]; [now injection Hl|discriminate].
   - discriminate.
   - discriminate.
 Qed.
 
 (** * Soundness *)
+
+(** the day bucket of the instant (clamped at 0, as the calendar sees it) starts below 2^32 *)
 Definition day_in_u32 (x : Z) : Prop :=
   (naive_bucket_of GDay (Z.to_N x) < 2 ^ zidx_bucket_bits)%N.
 
@@ -419,45 +420,52 @@ Proof.
   intros op a b. destruct (Z.compare_spec a b); destruct op; cbn [cmp_holds]; intros; try discriminate; lia.
 Qed.
 
-Theorem temporal_core : forall is_ts zones zid vals t op l p all,
+Lemma bypass_temporal : forall op, bypass STemporal op = false.
+Proof. intros op. unfold bypass. change zidx_sel_temporal_noneq_bypass with false. apply andb_false_r. Qed.
+
+(** the core: any i64 data (negative included), any signed probe instant [p] *)
+Theorem temporal_core : forall mode is_ts zones zid vals t op l p all,
   NoDup (map fst zones) -> In (zid, vals) zones -> In t vals ->
-  (forall u, In u vals -> 0 <= u < 2 ^ 63) ->
-  lit_ts_i64 l = p -> 0 <= p ->
+  (mode = 0%N -> forall u, In u vals -> 0 <= u) ->
+  lit_ts l = p ->
   In op [OEq; OGt; OGte; OLt; OLte] ->
   cmp_holds op (t ?= p) = true ->
   (op = OEq \/ (day_in_u32 p /\ day_in_u32 t)) ->
-  In zid (select_temporal is_ts (build zones) all op l).
+  In zid (select_temporal is_ts (build mode zones) all op l).
 Proof.
-  intros is_ts zones zid vals t op l p all Hnd Hin Ht Hb Hp Hp0 Hop Hcmp Hu32.
+  intros mode is_ts zones zid vals t op l p all Hnd Hin Ht Hb Hp Hop Hcmp Hu32.
   assert (Hne : vals <> []) by (intros ->; contradiction).
   rewrite build_fold.
-  destruct (build_spec zones tindex_empty zid vals Hnd Hin Hne) as [Hlk Hcal].
-  destruct Hcal as [c [Hc Hm]]; [intros u Hu; specialize (Hb u Hu); lia|].
+  destruct (build_spec mode zones tindex_empty zid vals Hnd Hin Hne) as [Hlk Hcal].
+  destruct (Hcal Hb) as [c [Hc Hm]].
   pose proof (zmin_list_le vals t Ht) as Hmin. pose proof (zmax_list_ge vals t Ht) as Hmax.
-  pose proof (Hb t Ht) as Htb.
-  assert (Hmn0 : 0 <= zmin_list vals) by (apply zmin_list_ge; [assumption|intros x Hx; specialize (Hb x Hx); lia]).
   destruct (Hm (Z.to_N t)) as [Mh Md]; [lia|lia|].
   pose proof (ft_bounds vals t Ht) as [Fmin Fmax].
   pose proof (cmp_holds_spec op t p Hcmp) as Hrel.
   unfold select_temporal, apply_temporal_only.
   assert (Hans : op_answered op = true).
   { cbn in Hop. destruct Hop as [<-|[<-|[<-|[<-|[<-|[]]]]]]; reflexivity. }
-  rewrite Hans. cbn [negb]. rewrite Hp, Hc, select_some.
-  apply filter_In. split.
+  rewrite Hans. cbn [negb]. rewrite Hp, Hc. rewrite select_some by apply bypass_temporal.
+  unfold cal_ts. apply filter_In. split.
   - cbn in Hop. destruct Hop as [<-|[<-|[<-|[<-|[<-|[]]]]]]; cbn [zones_intersecting];
-      (destruct (Z.ltb_spec p 0); [lia|]).
-    + cbn in Hrel. rewrite <- Hrel. now apply zones_for_ts_in.
+      (destruct (Z.ltb_spec (Z.max p 0) 0); [lia|]).
+    + cbn in Hrel. rewrite <- Hrel. replace (Z.to_N (Z.max t 0)) with (Z.to_N t) by lia.
+      now apply zones_for_ts_in.
     + destruct Hu32 as [?|[U1 U2]]; [discriminate|].
       eapply zones_for_ge_in; [exact Md|]. unfold day_in_u32 in *.
+      replace (Z.to_N (Z.max p 0)) with (Z.to_N p) by lia.
       rewrite !bucket_id_small by assumption. apply nb_mono. lia.
     + destruct Hu32 as [?|[U1 U2]]; [discriminate|].
       eapply zones_for_ge_in; [exact Md|]. unfold day_in_u32 in *.
+      replace (Z.to_N (Z.max p 0)) with (Z.to_N p) by lia.
       rewrite !bucket_id_small by assumption. apply nb_mono. lia.
     + destruct Hu32 as [?|[U1 U2]]; [discriminate|].
       eapply zones_for_le_in; [exact Md|]. unfold day_in_u32 in *.
+      replace (Z.to_N (Z.max p 0)) with (Z.to_N p) by lia.
       rewrite !bucket_id_small by assumption. apply nb_mono. lia.
     + destruct Hu32 as [?|[U1 U2]]; [discriminate|].
       eapply zones_for_le_in; [exact Md|]. unfold day_in_u32 in *.
+      replace (Z.to_N (Z.max p 0)) with (Z.to_N p) by lia.
       rewrite !bucket_id_small by assumption. apply nb_mono. lia.
   - rewrite Hlk. cbn in Hop. destruct Hop as [<-|[<-|[<-|[<-|[<-|[]]]]]]; cbn [zone_overlaps].
     + cbn in Hrel. rewrite <- Hrel. now apply ft_contains.
@@ -467,107 +475,77 @@ Proof.
     + lia.
 Qed.
 
-(** a day bucket below 2^32 bounds the instant itself *)
-Lemma day_in_u32_bound : forall x, 0 <= x -> day_in_u32 x -> x < 2 ^ 33.
-Proof.
-  intros x Hx. unfold day_in_u32, naive_bucket_of. cbn [gran_secs].
-  change zidx_day_secs with 86400%N. change (2 ^ zidx_bucket_bits)%N with 4294967296%N. lia.
-Qed.
-
-(** All five operators, every zone count and value list: a zone without negative
-    timestamps that holds a row satisfying a non-negative probe is a candidate, provided
-    the day buckets of the row and of the probe lie below the u32 wrap. *)
-Theorem temporal_sound_nonneg : forall is_ts zones zid vals t op l v all,
+(** All of [=, >, >=, <, <=]; any zone count; ANY value lists, pre-1970 values included
+    (for the fixed [timestamp] column, mode 0, the zone must hold no negative value);
+    any probe, negative included: a zone holding a row that satisfies the probe is a
+    candidate, provided the (clamped) day buckets of that row and of the probe start
+    below 2^32.  (Replaces [temporal_sound_nonneg]; the two negative-instant classes
+    are gone with db7c428.) *)
+Theorem temporal_sound : forall mode is_ts zones zid vals t op l v all,
   NoDup (map fst zones) -> In (zid, vals) zones -> In t vals ->
-  (forall u, In u vals -> 0 <= u < 2 ^ 63) ->
-  lit_value l = Some (LVInt v) -> 0 <= v ->
+  (mode = 0%N -> forall u, In u vals -> 0 <= u) ->
+  lit_value l = Some (LVInt v) ->
   day_in_u32 v -> day_in_u32 t ->
   In op [OEq; OGt; OGte; OLt; OLte] ->
   row_matches op t (LVInt v) = true ->
-  In zid (select_temporal is_ts (build zones) all op l).
+  In zid (select_temporal is_ts (build mode zones) all op l).
 Proof.
-  intros is_ts zones zid vals t op l v all Hnd Hin Ht Hb Hl Hv Uv Ut Hop Hm.
-  pose proof (day_in_u32_bound v Hv Uv) as Hv2.
-  eapply temporal_core with (p := v); eauto.
-  - rewrite (lit_ts_i64_spec l v Hl) by lia. lia.
+  intros mode is_ts zones zid vals t op l v all Hnd Hin Ht Hb Hl Uv Ut Hop Hm.
+  eapply temporal_core with (p := v); eauto. now apply lit_ts_spec.
 Qed.
 
 (** [=] needs no bound at all on the magnitudes (bucket-id collisions only add zones). *)
-Theorem temporal_eq_sound_any_magnitude : forall is_ts zones zid vals t l v all,
+Theorem temporal_eq_sound_any_magnitude : forall mode is_ts zones zid vals t l v all,
   NoDup (map fst zones) -> In (zid, vals) zones -> In t vals ->
-  (forall u, In u vals -> 0 <= u < 2 ^ 63) ->
+  (mode = 0%N -> forall u, In u vals -> 0 <= u) ->
   lit_value l = Some (LVInt v) ->
   row_matches OEq t (LVInt v) = true ->
-  In zid (select_temporal is_ts (build zones) all OEq l).
+  In zid (select_temporal is_ts (build mode zones) all OEq l).
 Proof.
-  intros is_ts zones zid vals t l v all Hnd Hin Ht Hb Hl Hm.
-  cbn [row_matches] in Hm. pose proof (cmp_holds_spec OEq t v Hm) as E. cbn in E. subst v.
-  pose proof (Hb t Ht) as Htb.
-  eapply temporal_core with (p := t); eauto.
-  - rewrite (lit_ts_i64_spec l t Hl) by lia. lia.
-  - lia.
+  intros mode is_ts zones zid vals t l v all Hnd Hin Ht Hb Hl Hm.
+  eapply temporal_core with (p := v); eauto.
+  - now apply lit_ts_spec.
   - cbn. tauto.
 Qed.
 
+(** [!=] and [IN] (repaired by f801704): the pruner answers [None] and the selector now
+    takes every zone of the segment ([all]); whatever the data and the literal.
+    (Was [temporal_neq_refuted].) *)
+Theorem temporal_neq_all_zones : forall is_ts ix all op l,
+  op = ONeq \/ op = OIn ->
+  select_temporal is_ts ix all op l = all.
+Proof.
+  intros is_ts ix all op l [-> | ->]; unfold select_temporal, apply_temporal_only; cbn [op_answered].
+  - change zidx_temporal_handles_neq with false. cbn [negb].
+    apply select_none_op_all; reflexivity.
+  - cbn [negb]. apply select_none_op_all; reflexivity.
+Qed.
+
 Example temporal_sound_hyps_ok :
-  let zones := [(0%N, [3599; 3600]); (1%N, [86399; 90000])] in
-  NoDup (map fst zones) /\ In (1%N, [86399; 90000]) zones /\ In 90000 [86399; 90000] /\
-  (forall u, In u [86399; 90000] -> 0 <= u < 2 ^ 63) /\
+  let zones := [(0%N, [3599; 3600]); (1%N, [-7200; 86399; 90000])] in
+  NoDup (map fst zones) /\ In (1%N, [-7200; 86399; 90000]) zones /\ In 90000 [-7200; 86399; 90000] /\
   lit_value (TLInt 86400) = Some (LVInt 86400) /\ day_in_u32 86400 /\ day_in_u32 90000 /\
   row_matches OGte 90000 (LVInt 86400) = true /\
-  select_temporal false (build zones) [0%N; 1%N] OGte (TLInt 86400) = [1%N].
+  select_temporal false (build 1 zones) [0%N; 1%N] OGte (TLInt 86400) = [1%N].
 Proof.
   cbn zeta.
   split; [repeat constructor; cbn; intuition discriminate|].
   split; [cbn; tauto|]. split; [cbn; tauto|].
-  split; [intros u [<-|[<-|[]]]; lia|].
   split; [reflexivity|].
   split; [vm_compute; reflexivity|]. split; [vm_compute; reflexivity|].
   split; vm_compute; reflexivity.
 Qed.
 
-(** * What the faithful model gets wrong (each witness is replayed on the real pruner) *)
+(** the former witnesses of [TemporalNegativeValueInZone], [TemporalNegativeProbeGt] and
+    [TemporalNeq] now pass (payload field: mode 1) *)
+Example temporal_fixed_witnesses_pass :
+  select_temporal false (build 1 [(0%N, [-5; 100])]) [0%N] OEq (TLInt 100) = [0%N] /\
+  select_temporal false (build 1 [(0%N, [-5; 100])]) [0%N] OEq (TLInt (-5)) = [0%N] /\
+  select_temporal false (build 1 [(0%N, [0])]) [0%N] OGt (TLInt (-5)) = [0%N] /\
+  select_temporal false (build 1 [(0%N, [1; 2])]) [0%N] ONeq (TLInt 1) = [0%N].
+Proof. repeat split; vm_compute; reflexivity. Qed.
 
-(** a zone that also holds a negative timestamp never enters the calendar *)
-Theorem temporal_negative_zone_refuted :
-  exists zones zid vals t l v,
-    NoDup (map fst zones) /\ In (zid, vals) zones /\ In t vals /\
-    lit_value l = Some (LVInt v) /\ 0 <= v /\ row_matches OEq t (LVInt v) = true /\
-    ~ In zid (select_temporal false (build zones) [zid] OEq l).
-Proof.
-  exists [(0%N, [-5; 100])], 0%N, [-5; 100], 100, (TLInt 100), 100.
-  split; [repeat constructor; cbn; tauto|].
-  split; [cbn; tauto|]. split; [cbn; tauto|]. split; [reflexivity|]. split; [lia|].
-  split; [vm_compute; reflexivity|]. vm_compute. tauto.
-Qed.
-
-(** a negative probe is clamped to 0: [> -5] becomes [> 0] and misses a row at 0 *)
-Theorem temporal_negative_probe_refuted :
-  exists zones zid vals t l v,
-    NoDup (map fst zones) /\ In (zid, vals) zones /\ In t vals /\ (forall u, In u vals -> 0 <= u) /\
-    lit_value l = Some (LVInt v) /\ row_matches OGt t (LVInt v) = true /\
-    ~ In zid (select_temporal false (build zones) [zid] OGt l).
-Proof.
-  exists [(0%N, [0])], 0%N, [0], 0, (TLInt (-5)), (-5).
-  split; [repeat constructor; cbn; tauto|].
-  split; [cbn; tauto|]. split; [cbn; tauto|].
-  split; [intros u [<-|[]]; lia|]. split; [reflexivity|].
-  split; [vm_compute; reflexivity|]. vm_compute. tauto.
-Qed.
-
-(** [!=]: the pruner answers [None], the selector turns that into "no zones" *)
-Theorem temporal_neq_refuted :
-  exists zones zid vals t l v,
-    NoDup (map fst zones) /\ In (zid, vals) zones /\ In t vals /\ (forall u, In u vals -> 0 <= u) /\
-    lit_value l = Some (LVInt v) /\ 0 <= v /\ row_matches ONeq t (LVInt v) = true /\
-    ~ In zid (select_temporal false (build zones) [zid] ONeq l).
-Proof.
-  exists [(0%N, [1; 2])], 0%N, [1; 2], 2, (TLInt 1), 1.
-  split; [repeat constructor; cbn; tauto|].
-  split; [cbn; tauto|]. split; [cbn; tauto|].
-  split; [intros u [<-|[<-|[]]]; lia|]. split; [reflexivity|]. split; [lia|].
-  split; [vm_compute; reflexivity|]. vm_compute. tauto.
-Qed.
+(** * What the faithful model still gets wrong (each witness is replayed on the real pruner) *)
 
 (** bucket ids are truncated to 32 bits but compared with [<=]: a probe whose day bucket
     starts at or after 2^32 (7 Feb 2106) wraps below the buckets of present-day data *)
@@ -575,7 +553,7 @@ Theorem temporal_u32_wrap_refuted :
   exists zones zid vals t l v,
     NoDup (map fst zones) /\ In (zid, vals) zones /\ In t vals /\ (forall u, In u vals -> 0 <= u) /\
     lit_value l = Some (LVInt v) /\ 0 <= v /\ row_matches OLte t (LVInt v) = true /\
-    ~ In zid (select_temporal false (build zones) [zid] OLte l).
+    ~ In zid (select_temporal false (build 1 zones) [zid] OLte l).
 Proof.
   exists [(0%N, [1000000])], 0%N, [1000000], 1000000, (TLInt 4295030400), 4295030400.
   split; [repeat constructor; cbn; tauto|].
@@ -589,7 +567,7 @@ Theorem temporal_float_literal_refuted :
   exists zones zid vals t l n d,
     NoDup (map fst zones) /\ In (zid, vals) zones /\ In t vals /\ (forall u, In u vals -> 0 <= u) /\
     lit_value l = Some (LVRat n d) /\ row_matches OLt t (LVRat n d) = true /\
-    ~ In zid (select_temporal false (build zones) [zid] OLt l).
+    ~ In zid (select_temporal false (build 1 zones) [zid] OLt l).
 Proof.
   exists [(0%N, [50])], 0%N, [50], 50, (TLFloat 201 2), 201, 2%positive.
   split; [repeat constructor; cbn; tauto|].
@@ -602,91 +580,51 @@ Qed.
 Definition beyond_u32 (x : Z) : bool :=
   (2 ^ zidx_bucket_bits <=? naive_bucket_of GDay (Z.to_N x))%N.
 
-(** [TemporalNeq] ([!=], also [IN]); [TemporalNonIntegerLiteral] (Float64 literal);
-    [TemporalNegativeValueInZone]; [TemporalNegativeProbeGt]; [TemporalBeyondU32]
-    (a range operator with the probe's or a row's day bucket at or beyond 2^32). *)
-Definition temporal_known (vals : list Z) (op : cmp_op) (l : tlit) : bool :=
+(** What is left after the fix round, for a row [t] that satisfies the probe:
+    [TemporalNonIntegerLiteral] (a Float64 literal with one of [=,>,>=,<,<=]) and
+    [TemporalBeyondU32] (a range operator with the probe's or the row's day bucket at or
+    beyond 2^32).  [!=] / [IN], negative values and negative probes are no longer in it. *)
+Definition temporal_known (t : Z) (op : cmp_op) (l : tlit) : bool :=
   match op with
-  | ONeq | OIn => true
+  | ONeq | OIn => false
   | _ =>
       match lit_value l with
       | None => false
       | Some (LVRat _ _) => true
-      | Some (LVInt v) =>
-          existsb (fun u => u <? 0) vals
-          || ((v <? 0) && cmp_op_eqb op OGt)
-          || (negb (cmp_op_eqb op OEq) && (beyond_u32 (Z.max v 0) || existsb beyond_u32 vals))
+      | Some (LVInt v) => negb (cmp_op_eqb op OEq) && (beyond_u32 v || beyond_u32 t)
       end
   end.
-
-Lemma existsb_false_all : forall (A : Type) (f : A -> bool) l x, existsb f l = false -> In x l -> f x = false.
-Proof.
-  intros A f l x H Hin. destruct (f x) eqn:E; [|reflexivity].
-  assert (existsb f l = true) by (apply existsb_exists; eauto). congruence.
-Qed.
 
 Lemma beyond_false : forall x, beyond_u32 x = false -> day_in_u32 x.
 Proof. intros x H. unfold beyond_u32 in H. unfold day_in_u32. lia. Qed.
 
-Lemma beyond_big : forall x, 2 ^ 63 <= x -> beyond_u32 x = true.
-Proof.
-  intros x Hx. unfold beyond_u32, naive_bucket_of. cbn [gran_secs].
-  change zidx_day_secs with 86400%N. change (2 ^ zidx_bucket_bits)%N with 4294967296%N. lia.
-Qed.
-
-(** Outside the known classes every zone that holds a matching row is a candidate:
-    all zone counts, all value lists within i64, every literal with a numeric meaning,
-    every operator. *)
-Theorem temporal_outside_known : forall is_ts zones zid vals t op l lv all,
-  NoDup (map fst zones) -> In (zid, vals) zones -> In t vals ->
-  (forall u, In u vals -> - 2 ^ 63 <= u < 2 ^ 63) ->
+(** Outside the known classes every zone that holds a matching row is a candidate: all
+    zone counts, all value lists (any sign), every literal with a meaning, every
+    operator ([!=] and [IN] included).  [all] is the list of all zones of the segment. *)
+Theorem temporal_outside_known : forall mode is_ts zones zid vals t op l lv all,
+  NoDup (map fst zones) -> In (zid, vals) zones -> In t vals -> In zid all ->
+  (mode = 0%N -> forall u, In u vals -> 0 <= u) ->
   lit_value l = Some lv ->
-  match lv with LVInt v => - 2 ^ 63 <= v < 2 ^ 64 | LVRat _ _ => True end ->
-  temporal_known vals op l = false ->
+  temporal_known t op l = false ->
   row_matches op t lv = true ->
-  In zid (select_temporal is_ts (build zones) all op l).
+  In zid (select_temporal is_ts (build mode zones) all op l).
 Proof.
-  intros is_ts zones zid vals t op l lv all Hnd Hin Ht Hb Hl Hrange Hk Hm.
-  assert (Hop : In op [OEq; OGt; OGte; OLt; OLte]).
-  { destruct op; cbn in Hk |- *; try discriminate; tauto. }
-  assert (Hk' : match lv with
-                | LVRat _ _ => False
-                | LVInt v => existsb (fun u => u <? 0) vals
-                             || ((v <? 0) && cmp_op_eqb op OGt)
-                             || (negb (cmp_op_eqb op OEq) && (beyond_u32 (Z.max v 0) || existsb beyond_u32 vals)) = false
-                end).
-  { unfold temporal_known in Hk. rewrite Hl in Hk.
-    destruct op; try discriminate; destruct lv; try discriminate; assumption. }
-  destruct lv as [v|n d]; [|contradiction]. clear Hk.
-  apply orb_false_iff in Hk'. destruct Hk' as [Hk1 Hk3]. apply orb_false_iff in Hk1. destruct Hk1 as [Hneg Hgt].
-  assert (Hnn : forall u, In u vals -> 0 <= u < 2 ^ 63).
-  { intros u Hu. pose proof (existsb_false_all _ _ _ u Hneg Hu) as E. cbn beta in E. specialize (Hb u Hu). lia. }
-  cbn [row_matches] in Hm. pose proof (cmp_holds_spec op t v Hm) as Hrel.
-  pose proof (Hnn t Ht) as Htb.
-  assert (Hbey : op = OEq \/ (beyond_u32 (Z.max v 0) = false /\ beyond_u32 t = false)).
-  { destruct (cmp_op_eqb op OEq) eqn:E.
-    - left. destruct op; try discriminate. reflexivity.
-    - right. cbn [negb andb] in Hk3. apply orb_false_iff in Hk3. destruct Hk3 as [B1 B2].
-      split; [assumption|]. exact (existsb_false_all _ _ _ t B2 Ht). }
-  destruct (Z.ltb_spec v (2 ^ 63)) as [Hsmall|Hbig].
-  - (* the literal is an i64 *)
-    destruct (Z.ltb_spec v 0) as [Hvneg|Hvpos].
-    + (* negative probe, clamped to 0 *)
-      assert (Hp : lit_ts_i64 l = 0) by (rewrite (lit_ts_i64_spec l v Hl) by lia; lia).
-      cbn in Hop. destruct Hop as [<-|[<-|[<-|[<-|[<-|[]]]]]]; cbn in Hrel; try lia.
-      * cbn [cmp_op_eqb andb] in Hgt. discriminate.
-      * eapply temporal_core with (p := 0) (t := t); eauto.
-        -- lia.
-        -- cbn; tauto.
-        -- destruct (Z.compare_spec t 0); cbn; try reflexivity; lia.
-        -- right. destruct Hbey as [?|[B1 B2]]; [discriminate|].
-           split; [vm_compute; reflexivity|now apply beyond_false].
-    + assert (Hp : lit_ts_i64 l = v) by (rewrite (lit_ts_i64_spec l v Hl) by lia; lia).
-      eapply temporal_core with (p := v) (t := t); eauto.
-      destruct Hbey as [->|[B1 B2]]; [now left|right].
-      rewrite Z.max_l in B1 by lia. split; now apply beyond_false.
-  - (* a u64 literal beyond i64::MAX: wraps to a negative i64 *)
-    destruct Hbey as [->|[B1 B2]].
-    + cbn in Hrel. lia.
-    + rewrite Z.max_l in B1 by lia. rewrite beyond_big in B1 by lia. discriminate.
+  intros mode is_ts zones zid vals t op l lv all Hnd Hin Ht Hall Hb Hl Hk Hm.
+  destruct (cmp_op_eqb op ONeq || cmp_op_eqb op OIn) eqn:Eneq.
+  - rewrite temporal_neq_all_zones; [assumption|]. destruct op; try discriminate; tauto.
+  - assert (Hop : In op [OEq; OGt; OGte; OLt; OLte]) by (destruct op; cbn in Eneq |- *; try discriminate; tauto).
+    assert (Hk' : match lv with
+                  | LVRat _ _ => False
+                  | LVInt v => negb (cmp_op_eqb op OEq) && (beyond_u32 v || beyond_u32 t) = false
+                  end).
+    { unfold temporal_known in Hk. rewrite Hl in Hk.
+      destruct op; try discriminate; destruct lv; try discriminate; assumption. }
+    destruct lv as [v|n d]; [|contradiction].
+    cbn [row_matches] in Hm.
+    eapply temporal_core with (p := v); eauto.
+    + now apply lit_ts_spec.
+    + destruct (cmp_op_eqb op OEq) eqn:E.
+      * left. destruct op; try discriminate. reflexivity.
+      * right. cbn [negb andb] in Hk'. apply orb_false_iff in Hk'. destruct Hk' as [B1 B2].
+        split; now apply beyond_false.
 Qed.
